@@ -1,180 +1,33 @@
 /-
   Line-protocol driver: runs the model's executable definitions on the harness's cases.
+  One request per line in, one canonical result line out.  Each property (group) has its own
+  handler module under DuckModel/Drv/; a handler returns `none` (or "UNKNOWN-OP") for
+  operations it does not know.
 -/
-import DuckModel.Wire
-import DuckModel.Parser
-import DuckModel.Spec.Render
-import DuckModel.Scripted
-import DuckModel.Registry
-import DuckModel.Sdk.Condition
-import DuckModel.Spec.Template
+import DuckModel.Drv.Core
 
 namespace Duck.Driver
-open Duck Duck.Wire
 
-def bad : String := "BAD-REQUEST"
+/-- add one line per handler module -/
+def handlers : List (List String → Option String) := [
+  Duck.Drv.Core.handle
+]
 
-def decArgCh (x : String) : Option (Nat × Bool) :=
-  match x.splitOn ":" with
-  | [k, q] => k.toNat?.map fun n => (n, q == "1")
-  | _ => none
-
-def decComment (x : String) : Option (Nat × Str) :=
-  match x.splitOn ":" with
-  | [k, txt] => do
-    let n ← k.toNat?
-    let t ← decStr txt
-    pure (n, t)
-  | _ => none
-
-def decRegOp (t : String) : Option RegOp :=
-  match t.splitOn "/" with
-  | ["S", n, al, tag] => do pure (.set { name := (← decStr n), aliases := (← decList al), tag := (← tag.toNat?) })
-  | ["G", n] => (decStr n).map .get
-  | ["E", n] => (decStr n).map .exists
-  | ["R", n] => (decStr n).map .remove
-  | ["N"] => some .names
-  | _ => none
-
-def encSpec (c : CmdSpec) : String := encStr c.name ++ "/" ++ encList c.aliases ++ "/" ++ toString c.tag
-
-def encRegOut : RegOut → String
-  | .bool b => if b then "1" else "0"
-  | .cmd none => "-"
-  | .cmd (some c) => encSpec c
-  | .names l => encList l
-
-def sortStrings (l : List String) : List String := (l.toArray.qsort (· < ·)).toList
-
-def encReg (r : Reg) : String :=
-  "CMDS " ++ ",".intercalate (sortStrings (r.commands.map fun (k, c) => encStr k ++ ">" ++ encSpec c)) ++
-  " ALIASES " ++ ",".intercalate (sortStrings (r.aliases.map fun (k, v) => encStr k ++ ">" ++ encStr v))
-
-inductive TArg
-  | tmpl (t : List Spec.Seg)
-  | spread (n : Str)
-
-def decSeg (t : String) : Option Spec.Seg :=
-  match t.toList with
-  | 'L' :: r => (decStr (String.ofList r)).map .lit
-  | 'V' :: r => (decStr (String.ofList r)).map .var
-  | 'E' :: r => (decStr (String.ofList r)).map .escVar
-  | _ => none
-
-def decTArg (t : String) : Option TArg :=
-  match t.toList with
-  | 'S' :: r => (decStr (String.ofList r)).map .spread
-  | _ => if t = "T" then some (.tmpl []) else ((t.splitOn "+").mapM decSeg).map .tmpl
-
-def segOKb : Spec.Seg → Bool
-  | .lit t => t.all fun c => c != '$' && c != '%' && c != '\\'
-  | .var n => n.all fun c => c != '}' && c != ' ' && c != '=' && c != '\t' && c != '\r' && c != '\n'
-  | .escVar n => n.all fun c => c != '}' && c != ' ' && c != '=' && c != '\t' && c != '\r' && c != '\n' &&
-      c != '$' && c != '%' && c != '\\'
-
-def keyOKb (n : Str) : Bool :=
-  n.all fun c => c != '}' && c != ' ' && c != '=' && c != '\t' && c != '\r' && c != '\n'
-
-/-- C01 item: label/output/command/args/lead/trail/afterLabel/eqBefore/eqAfter/argch/comment/crlf -/
-def decItem (t : String) : Option (Spec.Choices × ScriptInstr × Bool) :=
-  match t.splitOn "/" with
-  | [lb, ou, cm, ar, ld, tr, al, eb, ea, ac, co, cr] => do
-    let label ← decOpt lb
-    let output ← decOpt ou
-    let command ← decOpt cm
-    let args ← decOptList ar
-    let lead ← decStr ld
-    let trail ← decStr tr
-    let afterLabel ← al.toNat?
-    let eqBefore ← eb.toNat?
-    let eqAfter ← ea.toNat?
-    let argch ← if ac = "-" then some [] else (ac.splitOn ",").mapM decArgCh
-    let comment ← if co = "-" then some none else (decComment co).map some
-    pure ({ lead := lead, trail := trail, afterLabel := afterLabel, eqBefore := eqBefore,
-            eqAfter := eqAfter, args := argch, comment := comment },
-          { label := label, output := output, command := command, args := args }, cr = "1")
-  | _ => none
-
-def handle (toks : List String) : String :=
-  match toks with
-  | ["parse", t] =>
-    match decStr t with
-    | some s => encParse (parseText s)
-    | none => bad
-  | ["c01", opn, items] =>
-    match (items.splitOn ";").mapM decItem with
-    | some its =>
-      let text := if opn = "1" then Spec.renderScriptOpen its else Spec.renderScript its
-      let dom := its.all fun x => Spec.instrOKb x.2.1 && Spec.choicesOKb x.1
-      encStr text ++ " " ++ (if dom then "DOM" else "NODOM") ++ " " ++ encParse (parseText text)
-    | none => bad
-  | ["run", text, names, queue, haltAt, vars, fuel] =>
-    match decStr text, decList names, decQueue queue, decVars vars, fuel.toNat? with
-    | some text, some names, some queue, some vars, some fuel =>
-      let st : ScriptedSt := { queue := queue, haltAt := haltAt.toNat? }
-      match runScript (scriptedSem names) scriptedHalt fuel text vars st with
-      | .error e => "PARSEERR " ++ encPErr e.kind ++ " " ++ encMeta e.mi
-      | .ok (rs, e) =>
-        let log := ";".intercalate (rs.st.log.map fun l => encStr l.name ++ "@" ++ toString l.line ++ encList l.args)
-        let logs := " | LOG " ++ log
-        match e with
-        | .fail msg mi =>
-          -- runner-generated texts are not compared (only that the run failed, and where);
-          -- messages produced by commands ("crash#…") must arrive unchanged
-          let m := if "crash#".toList.isPrefixOf msg then encStr msg else "runner-msg"
-          "fail " ++ m ++ " " ++ encMeta mi ++ logs
-        | .exitCalled => "ok | VARS " ++ encVars rs.vars ++ logs
-        | .reachedEnd => "ok | VARS " ++ encVars rs.vars ++ logs
-        | .halted => "ok | VARS " ++ encVars rs.vars ++ logs
-        | .outOfFuel => "fuel" ++ logs
-    | _, _, _, _, _ => bad
-  | ["reg", ops] =>
-    match (if ops = "-" then some [] else (ops.splitOn ";").mapM decRegOp) with
-    | some ops =>
-      let (r, outs) := Reg.run {} ops
-      ";".intercalate (outs.map encRegOut) ++ " | " ++ encReg r
-    | none => bad
-  | ["cond", _consumer, toks, _exp] =>
-    match decList toks with
-    | some ts =>
-      match evalSlice ts with
-      | .ok b => if b then "ok 1" else "ok 0"
-      | .error _ => "err"
-    | none => bad
-  | ["truthy", v] =>
-    match decOpt v with
-    | some v => if isTrue v then "1" else "0"
-    | none => bad
-  | ["c02", vars, targs] =>
-    match decVars vars, (targs.splitOn ",").mapM decTArg with
-    | some vars, some targs =>
-      let written := targs.map fun a => match a with
-        | .tmpl t => Spec.renderTemplate t
-        | .spread n => Spec.renderSpread n
-      let expected := targs.flatMap fun a => match a with
-        | .tmpl t => [Spec.tmplValue vars t]
-        | .spread n => Spec.words ((Vars.get vars n).getD [])
-      let dom := targs.all fun a => match a with
-        | .tmpl t => t.all segOKb
-        | .spread n => keyOKb n && ((Vars.get vars n).getD []).all fun c => c != '"' && c != '#'
-      encList written ++ " " ++ (if dom then "DOM" else "NODOM") ++ " " ++ encList expected ++ " " ++
-        encList (bind vars (some written))
-    | _, _ => bad
-  | ["bind", vars, args] =>
-    match decVars vars, decList args with
-    | some vars, some args => encList (bind vars (some args))
-    | _, _ => bad
-  | ["ws", n] =>
-    match n.toNat? with
-    | some k => if isWs (Char.ofNat k) then "1" else "0"
-    | none => bad
-  | _ => bad
+def dispatch (toks : List String) : String :=
+  go handlers
+where
+  go : List (List String → Option String) → String
+    | [] => "UNKNOWN-OP"
+    | h :: rest =>
+      match h toks with
+      | some r => if r = "UNKNOWN-OP" then go rest else r
+      | none => go rest
 
 partial def loop (h : IO.FS.Stream) (out : IO.FS.Stream) : IO Unit := do
   let line ← h.getLine
   if line.isEmpty then return ()
   let toks := (line.trimAscii.toString.splitOn " ")
-  out.putStrLn (handle toks)
+  out.putStrLn (dispatch toks)
   out.flush
   loop h out
 
